@@ -109,8 +109,9 @@ Step(e) ==
                                      !.zerochecks = @ + (IF isTick THEN 1 ELSE 0),
                                      !.zerodue = @ + (IF isTick /\ \E p \in seen : p \notin outZero THEN 1 ELSE 0),
                                      !.atlimit = @ + (IF sent # {} /\ flimit # 0 /\ \E r \in outLimit : Cardinality({s \in outLimit : s[2] = r[2]}) = flimit THEN 1 ELSE 0),
-                                     !.doubled = @ + Cardinality({c \in failed : RowOf(pf, c)[3] >= 2 /\ RowOf(pf, c)[4] # -1 /\ RowOf(pf, c)[4] - now > 1000 * Delay(binit, bmax, 1)}),
-                                     !.capped = @ + Cardinality({c \in failed : RowOf(pf, c)[4] # -1 /\ bmax > 0 /\ RowOf(pf, c)[4] - now = 1000 * bmax /\ binit * Pow2(Min2(RowOf(pf, c)[3] - 1, 20)) > bmax})]
+                                     !.doubled = @ + Cardinality({c \in failed : RowOf(pf, c)[3] >= 2 /\ RowOf(pf, c)[4] # -1 /\ Delay(binit, bmax, 2) > Delay(binit, bmax, 1)}),
+                                     !.capped = @ + Cardinality({c \in failed : RowOf(pf, c)[4] # -1 /\ bmax > 0
+                                                                   /\ (IF binit <= 0 THEN 1 ELSE binit) * Pow2(Min2(RowOf(pf, c)[3] - 1, 20)) > bmax})]
            /\ UNCHANGED <<flimit, alimit, binit, bmax, succ>>
 
 Next == l <= Len(T) /\ l' = l + 1 /\ Step(T[l])
